@@ -25,7 +25,7 @@ claim("C05",
       "Decides the restore/flush structure for every fault position at once (exceptional edges from every may-raise node); does not decide behavioural equivalence with a fresh object. Trusted: CPython ast, the may-raise model and alias table of DESIGN.md §2.3/2.4; finally blocks are summarised as atomic (loop-carried partial restores inside a finally are not decided).",
       "static analysis: CFG with exceptional edges, write-role (save/ORIG/TEMP) classification, reachability and dominance over the CFG")
 claim("C01",
-      "Structural decision of seven necessary conditions of C01: validate dominates every value store on the same binding (R01.a); the value store has exactly three writers (R01.b); every validating type's constructor chain validates the default after the slots its validators read are set (R01.c); no constructor drops a constraint argument (R01.d); every constraint slot is read by a validator reachable from _validate (R01.e); the bounds validators of Number/Integer/Magnitude/Date/CalendarDate/Range/DateRange/CalendarDateRange/List/HookList equal an oracle written from the property on the complete ordering domain incl. NaN, exhaustively (R01.f, ~4800 abstract cases); tuple-family type-check agreement (R01.g).",
+      "Structural decision of seven necessary conditions of C01: validate dominates every value store on the same binding (R01.a); the value store has exactly three writers (R01.b); every validating type's constructor chain validates the default after the slots its validators read are set (R01.c); no constructor drops a constraint argument (R01.d); every constraint slot is read by a validator reachable from _validate (R01.e); the bounds validators of Number/Integer/Magnitude/Date/CalendarDate/Range/DateRange/CalendarDateRange/List/HookList equal an oracle written from the property on the complete ordering domain incl. NaN, exhaustively (R01.f, ~4800 abstract cases); tuple-family type-check agreement (R01.g); None accepted iff allow_None and other values iff well typed for 15 types, type predicates as abstract inputs (R01.h, 90 cases).",
       "Does not decide the accept-iff-spec equivalence for value *types*, regexes or membership (re.match/isinstance/in are trusted and only checked to be consulted). R01.f assumes well-typed bounds with LO<HI, order-preserving _to_datetime, and treats non-bounds validators as passing.",
       "static analysis: dominance/def-use on the setter CFG, who-may-write table, linearised constructor event sequences over the static MRO, self-call closure reads, finite-domain abstract interpretation vs. an independent oracle")
 claim("C02",
